@@ -1824,3 +1824,38 @@ def iter_of(v):
     if type(d) is Struct and d.ty.endswith('RangeInclusive'):
         return RangeInclIt(d)
     return _orig_iter_of(v)
+
+@native(('str', 'split_once'), ('str', 'rsplit_once'))
+def _split_once(ex, c, a, dt):
+    s = as_str(a[0]); p = deref(a[1])
+    if isinstance(p, int): p = chr(p)
+    i = s.find(p) if c.method == 'split_once' else s.rfind(p)
+    if i < 0: return NONE()
+    return SOME(Tup([Cell(strref(s[:i])), Cell(strref(s[i + len(p):]))]))
+@native(('str', 'rsplit'), ('str', 'splitn'), ('str', 'rsplitn'))
+def _rsplit(ex, c, a, dt):
+    if c.method == 'rsplit':
+        s = as_str(a[0]); p = deref(a[1])
+        if isinstance(p, int): p = chr(p)
+        return ListIt([strref(x) for x in reversed(s.split(p))])
+    n = concrete_int(ex, a[1]); s = as_str(a[0]); p = deref(a[2])
+    if isinstance(p, int): p = chr(p)
+    parts = s.split(p, n - 1) if c.method == 'splitn' else list(reversed(s.rsplit(p, n - 1)))
+    return ListIt([strref(x) for x in parts])
+@native(('str', 'find'), ('str', 'rfind'))
+def _find(ex, c, a, dt):
+    s = as_str(a[0]); p = deref(a[1])
+    if isinstance(p, int): p = chr(p)
+    i = s.find(p) if c.method == 'find' else s.rfind(p)
+    return NONE() if i < 0 else SOME(len(s[:i].encode()))
+@native(('str', 'eq_ignore_ascii_case'))
+def _eq_ic(ex, c, a, dt): return as_str(a[0]).lower() == as_str(a[1]).lower()
+@native(('str', 'get'))
+def _str_get(ex, c, a, dt):
+    s = as_str(a[0]).encode()
+    try:
+        lo, hi = range_bounds(ex, a[1], len(s))
+        if lo > hi or hi > len(s): return NONE()
+        return SOME(strref(s[lo:hi].decode()))
+    except UnicodeDecodeError:
+        return NONE()
